@@ -290,11 +290,19 @@ Proof. exact param_defaults_fresh_forall. Qed.
 Print Assumptions C08_param_defaults_fresh.
 
 (* ... and every container created at import, mutable default argument or `global` name that the source writes to is
-   a guarded get-or-create memo / initialise-once singleton *)
+   a guarded get-or-create memo / initialise-once singleton; every setting of the interpreter or of an imported library
+   that the package writes (mp.dps, np.seterr, os.environ, os.chdir ...) is written by EVERY run, in its entry point,
+   to an input-independent value (se_keyed_memo is the table's "harmless" flag) *)
 Theorem C08_state_table_ok :
   forall e, In e c08_state_table -> se_mutated e = true -> se_keyed_memo e = true.
 Proof. exact state_table_ok_forall. Qed.
 Print Assumptions C08_state_table_ok.
+
+(* HASH-SEED INDEPENDENCE of iteration orders (same generated file): every loop / comprehension of the source over a dict
+   view or a set expression is listed, and none walks a set *)
+Theorem C08_iteration_order_table_ok : forall i, In i c08_iterations -> it_kind i <> ISet.
+Proof. exact iterations_ok_forall. Qed.
+Print Assumptions C08_iteration_order_table_ok.
 
 (* the verdicts on the implementation's observations are computed by these checkers; they are sound *)
 Theorem C08_checkers_sound :
@@ -399,6 +407,10 @@ Example C08_memo_table_example :
   existsb (fun e => match me_kind e with ValueKeyed => true | _ => false end) c08_memo_table = true
   /\ existsb (fun e => match me_kind e with IdentityKeyed _ => true | _ => false end) c08_memo_table = true.
 Proof. split; vm_compute; reflexivity. Qed.
+
+Example C08_iteration_table_example :
+  c08_iterations <> [] /\ existsb iteration_ok c08_iterations = true.
+Proof. split; [discriminate|vm_compute; reflexivity]. Qed.
 
 (* a work package of three iterations after ordinary requests, next to a client that holds a (stale) entry *)
 Example C08_mc_package_example :
